@@ -141,6 +141,16 @@ def _build_generated():
     out["gen_unity_last.mol2"] = ("mol2", with_unity(water, [(1, [("charge", "-1")]), (2, [("charge", "1"), ("origin", "fitted")])], [])
                                   + with_unity(ethane, [(1, [("charge", "1")])], [(1, [("kind", "rotor")]), (3, [("kind", "stiff"), ("w", "0.5")])])
                                   + nocomment(hcl.dumps_mol2()))
+    # the order of the blocks of a molecule is free, and a molecule without bonds need not carry a BOND tag: files in which the
+    # ATOM block is the LAST block of its molecule
+    def bond_first(m):
+        lines = m.dumps_mol2().splitlines()
+        ia, ib = lines.index("@<TRIPOS>ATOM"), lines.index("@<TRIPOS>BOND")
+        return "\n".join(lines[:ia] + lines[ib:] + lines[ia:ib]) + "\n"
+
+    out["gen_bond_first.mol2"] = ("mol2", bond_first(water) + bond_first(ethane) + hcl.dumps_mol2())
+    ne2 = mk("neon2", ["Ne"], [[-0.5, 4.75, 2.0]], [])
+    out["gen_no_bond_tag.mol2"] = ("mol2", ne.dumps_mol2().replace("@<TRIPOS>BOND\n", "") + water.dumps_mol2() + ne2.dumps_mol2().replace("@<TRIPOS>BOND\n", ""))
     out["gen_mixed.xyz"] = ("xyz", "".join(m.dumps_xyz() for m in (water, ethane, hcl)))
     out["gen_edge.xyz"] = ("xyz", "".join(m.dumps_xyz() for m in (ne, water, hcl)))
     out["gen_confs.xyz"] = ("xyz", "".join(m.dumps_xyz() for m in (water, w2, w3)))
@@ -547,9 +557,11 @@ def _gen_corrupt(r, fmt, lines, ann):
             if kind == "ATOM" and len(toks) >= 5:
                 for t in (2, 3, 4) + ((8,) if len(toks) >= 9 else ()):
                     cands.append(("num", li, t, kind))
+                cands.append(("id", li, 0, kind))
             elif kind == "BOND" and len(toks) >= 4:
                 for t in (1, 2):
                     cands.append(("num", li, t, kind))
+                cands.append(("id", li, 0, kind))
             elif kind == "header" and toks and all(x.lstrip("-").isdigit() for x in toks) and li > 0 and ann[li - 2][2] == "tag:MOLECULE":
                 for t in range(min(2, len(toks))):
                     cands.append(("count", li, t, kind))
@@ -573,6 +585,17 @@ def _gen_corrupt(r, fmt, lines, ann):
             return {"kind": "corrupt", "line": li, "tok": t, "with": toks[t][:k_] + r.choice(["\udce9", "\udcff", "\udc80"]) + toks[t][k_ + 1:],
                     "what": "byte", "entry": "mol.load_all@path"}
         return {"kind": "corrupt", "line": li, "tok": t, "with": r.choice(_BAD_NUM), "what": "numeric"}
+    if what == "id":
+        # the record's own serial number becomes the serial number of a NEIGHBOURING record: two records carry one id and one
+        # id is missing.  (A reader that goes by file order returns the undamaged molecule, one that goes by id must notice.)
+        try:
+            old = int(toks[0])
+        except ValueError:
+            return None
+        nb = [j for j in (li - 1, li + 1) if 0 <= j < len(ann) and ann[j][2] == kind]
+        if not nb:
+            return None
+        return {"kind": "corrupt", "line": li, "tok": 0, "with": lines[r.choice(nb)].split()[0], "what": "id"}
     if what == "count":
         old = int(toks[t])
         new = old + r.choice([-1, 1, 1, 2])
